@@ -201,7 +201,7 @@ pub fn run(ctx: &RunCtx) -> i32 {
         .map(|cfg| {
             let mut r = Report::new();
             let mon = Mon::new(2, TimeDetail::Medium);
-            let st = bfs(cfg, &apps, &mon, depth, if thorough { 6_000_000 } else { 1_500_000 }, &mut r);
+            let st = bfs(cfg, &apps, &mon, depth, if thorough { 2_500_000 } else { 1_500_000 }, &mut r);
             r.states = st.states;
             r.transitions = st.transitions;
             r.sym("bfs-configs");
